@@ -142,8 +142,12 @@ def window_universe(w, margin=2, flavours=FLAVOURS, maps=True, vary=True, specia
     if vary:
         u['fmts'] = ['png', 'jpeg']
         u['dimtoks'] = [''] + (list(w.dims) + ['default', 'bad'] if w.dims else ['bad'])
-        u['vary'] = [(0, 0), (1, 0), (mw, 0), (0, mh), (-1, 0), ('word', 0), (0, 'word'), ('word', 'word')]
-    if maps and w.res:
+        u['vary'] = [(0, 0), (1, 0), (mw, 0), (0, mh), (-1, 0)]
+    if special:
+        u['vary'] = list(u['vary'] or [(0, 0), (mw, 0)]) + [
+            ('word', 0), (0, 'word'), ('word', 'word'), ('huge', 0), (0, 'huge'), ('huge', 'huge'), ('neghuge', 0),
+            (0, 'neghuge'), (BIGXY, 0), (0, BIGXY)]
+    if maps and w.res and w.tile_limit:
         tw = w.tile_size[0]
         u['layerseqs'] = [('fine',)]
         u['maplevels'] = list(range(w.levels))
@@ -458,15 +462,28 @@ def coarse_universe(w):
 
 
 # ---------------------------------------------------------------------------------------------
-# TLC runs
+# TLC runs (plain functions without ctx side effects other than scratch directories: they are run in parallel)
 # ---------------------------------------------------------------------------------------------
-def check_model(ctx, name, w, universe, max_req, precheck=False, timeout=900, invariants=None, workers=16):
+def check_model(ctx, name, w, universe, max_req, precheck=False, timeout=1500, invariants=None, workers=4, table=False):
+    """exhaustive TLC run; with table=True the run also writes the table of all single requests"""
     d = ctx.sub('mc-' + name)
     inv = list(invariants if invariants is not None else INVARIANTS + ['ExpectedOK'])
+    out = os.path.join(d, 'cases.json')
     mp, cp = tlc.write_mc(d, 'TileRefuse', 'MC_' + re.sub(r'\W', '_', name), w.consts(universe, precheck, max_req),
-                          invariants=inv)
+                          invariants=inv, extends=['Json', 'TLCExt'] if table else (),
+                          extra_defs=('ASSUME JsonSerialize("%s", [cases |-> CaseTable])' % out) if table else '')
     r = tlc.run(mp, cp, d, timeout=timeout, workers=workers)
-    ctx.log('TLC %s: %r' % (name, r))
+    r.cases = None
+    if table and os.path.exists(out):
+        with open(out) as f:
+            cases = json.load(f)['cases']
+        for c in cases:
+            req = c['req']
+            for k in 'xyz':
+                if k in req:
+                    req[k] = tok_from_tla(req[k])
+        cases.sort(key=lambda c: json.dumps(c['req'], sort_keys=True))
+        r.cases = cases
     return r
 
 
@@ -476,23 +493,16 @@ def vacuity_guard(name, r, need):
             raise tlc.MachineryError('vacuous model run %s: action %s has coverage %r' % (name, a, r.coverage.get(a)))
 
 
-def export_cases(ctx, name, w, universe, precheck=False):
-    d = ctx.sub('tab-' + name)
-    out = os.path.join(d, 'cases.json')
-    mp, cp = tlc.write_mc(d, 'TileRefuse', 'MC_Tab', w.consts(universe, precheck, 0), extends=['Json', 'TLCExt'],
-                          extra_defs='ASSUME JsonSerialize("%s", [cases |-> CaseTable])' % out)
-    r = tlc.run(mp, cp, d, timeout=900, workers=1, coverage=False)
-    if not r.ok or not os.path.exists(out):
-        raise tlc.MachineryError('case table of %s: %r\n%s' % (name, r, r.out[-1500:]))
-    with open(out) as f:
-        cases = json.load(f)['cases']
-    for c in cases:
-        req = c['req']
-        for k in 'xyz':
-            if k in req:
-                req[k] = tok_from_tla(req[k])
-    cases.sort(key=lambda c: json.dumps(c['req'], sort_keys=True))
-    return cases
+def simulate(ctx, w, universe, num, depth, max_req, precheck=False):
+    d = ctx.sub('sim-' + w.name)
+    mp, cp = tlc.write_mc(d, 'TileRefuse', 'MC_Sim', w.consts(universe, precheck, max_req))
+    prefix = os.path.join(d, 'beh')
+    r = tlc.run(mp, cp, d, workers=1, simulate='file=%s,num=%d' % (prefix, num), depth=depth, seed=ctx.seed + 16,
+                coverage=False, timeout=900)
+    behs = [beh for f, beh in tlc.sim_traces(prefix) if len(beh) > 1]
+    if not behs:
+        raise tlc.MachineryError('no behaviours from TLC simulation for %s: %s' % (w.name, r.out[-1500:]))
+    return behs
 
 
 def project_expected(e):
@@ -603,30 +613,6 @@ def replay_behaviour(ctx, w, app, beh, label):
                               {'world': w.name, 'requests': sent})
                 return steps, False
     return steps, True
-
-
-def simulate_and_replay(ctx, w, app, universe, num, depth, max_req, precheck=False):
-    d = ctx.sub('sim-' + w.name)
-    mp, cp = tlc.write_mc(d, 'TileRefuse', 'MC_Sim', w.consts(universe, precheck, max_req))
-    prefix = os.path.join(d, 'beh')
-    r = tlc.run(mp, cp, d, workers=1, simulate='file=%s,num=%d' % (prefix, num), depth=depth, seed=ctx.seed + 16,
-                coverage=False, timeout=900)
-    n = 0
-    for f, beh in tlc.sim_traces(prefix):
-        if len(beh) < 2:
-            continue
-        steps, ok = replay_behaviour(ctx, w, app, beh, 'sim')
-        n += 1
-        ctx.cov['replayed_behaviours'] += 1
-        ctx.cov['replayed_steps'] += steps
-        ctx.count(('sim', w.name, n))
-        if n == 1:
-            ctx.sample({'kind': 'TLC behaviour replayed on the real application (%s)' % w.name,
-                        'requests': [describe(req_from_state(st['pend']['req'])) for a, st in beh[1:]
-                                     if a in ('DoTileRequest', 'DoMapRequest')][:8]})
-    if n == 0:
-        raise tlc.MachineryError('no behaviours from TLC simulation for %s: %s' % (w.name, r.out[-1500:]))
-    ctx.log('sim %s: %d TLC behaviours replayed' % (w.name, n))
 
 
 # ---------------------------------------------------------------------------------------------
@@ -745,16 +731,17 @@ def invariant_signature(inv, st):
     return sig, req
 
 
-def judge_traces(ctx, w, traces, precheck=False, name=None):
-    """validate a batch; report rejected traces and invariant violations as violations on the real code"""
-    r, matched = validate_traces(ctx, w, traces, precheck, name)
+def judge_traces(ctx, w, traces, precheck=False, name=None, result=None):
+    """validate a batch (or take the TLC result computed in the background); report rejected traces and invariant
+    violations as violations on the real code"""
+    r, matched = result if result is not None else validate_traces(ctx, w, traces, precheck, name)
     if r.violated and r.violated not in ('postcondition',) and r.trace:
         st = r.trace[-1][1]
         sig, req = invariant_signature(r.violated, st)
         tid = st.get('tid', 1)
-        ctx.violation(sig, '%s: the recorded execution (accepted by the trace spec so far) violates %s at %s: reply %s, '
+        ctx.violation(sig, '%s: the recorded execution (accepted by the trace spec so far) violates %s at %s: reply %s/%s, '
                       'upstream %s, writes %s' % (w.name, r.violated, describe(req_from_state(req)) if req['kind'] != 'none' else '-',
-                                                  dict(st['reply'], req='...'), sorted(st['ups'])[:4], sorted(st['wrs'])[:4]),
+                                                  st['reply']['cls'], st['reply']['reason'], sorted(st['ups'])[:4], sorted(st['wrs'])[:4]),
                       {'world': w.name, 'requests': reqs_upto(traces[tid - 1], st.get('l', 1) - 1), 'precheck': precheck})
         # acceptance of the rest, without the invariants
         r, matched = validate_traces(ctx, w, traces, precheck, (name or w.name) + '-acc', invariants=())
@@ -779,6 +766,8 @@ def judge_traces(ctx, w, traces, precheck=False, name=None):
     ctx.cov['traces_validated_against_impl'] += len(traces)
     ctx.cov['states'] += r.distinct
     ctx.cov['transitions'] += r.generated
+    for t in traces:
+        ctx.count(('trace', w.name, len(t), json.dumps(t[0], sort_keys=True)))
     return nrej
 
 
@@ -793,141 +782,172 @@ def confront_model_violation(ctx, w, app, r, precheck):
     """The model of the code violates an invariant: it counts only if the real application does the same."""
     reqs = counterexample_requests(r.trace)
     events = record_trace(w, app, reqs)
-    rr, matched = validate_traces(ctx, w, [events], precheck, name=w.name + '-cex')
+    ra, matched = validate_traces(ctx, w, [events], precheck, name=w.name + '-cex-acc', invariants=())
     accepted = matched is not None and matched[0] == len(events)
-    if accepted and rr.violated == r.violated:
-        sig, req = invariant_signature(r.violated, rr.trace[-1][1])
-        ctx.violation(sig, '%s: TLC counterexample to %s reproduced on the real application: %s -> %s' % (
-            w.name, r.violated, '; '.join(describe(q) for q in reqs),
-            [{k: v for k, v in e.items() if k != 'cached'} for e in events if e['ev'] in ('fetch', 'store', 'respond')][:8]),
-            {'world': w.name, 'requests': reqs, 'precheck': precheck})
-        return 'reproduced'
+    if accepted:
+        rr, _ = validate_traces(ctx, w, [events], precheck, name=w.name + '-cex')
+        if rr.violated == r.violated and rr.trace:
+            sig, req = invariant_signature(r.violated, rr.trace[-1][1])
+            ctx.violation(sig, '%s: TLC counterexample to %s reproduced on the real application: %s -> %s' % (
+                w.name, r.violated, '; '.join(describe(q) for q in reqs),
+                [{k: v for k, v in e.items() if k != 'cached'} for e in events if e['ev'] in ('fetch', 'store', 'respond')][:10]),
+                {'world': w.name, 'requests': reqs, 'precheck': precheck})
+            return 'reproduced'
     return 'accepted-without-violation' if accepted else 'not-a-behaviour'
 
 
-def two_layer_scenario(ctx):
-    """WMS requests over two cached layers with different grids: the model of the code as it is (every layer decides
-    about its tile limit when its turn to render comes) violates RejectedHasNoEffects; TLC's counterexample is run on
-    the real application.  Returns the variant of the model the application conforms to."""
-    w = coarse_world()
-    u = coarse_universe(w)
-    app = App(w, ctx.sub('app-' + w.name))
-    try:
-        r = check_model(ctx, w.name + '-as-is', w, u, 1, precheck=False, workers=8)
-        precheck = False
-        if r.violated == 'RejectedHasNoEffects':
-            verdict = confront_model_violation(ctx, w, app, r, False)
-            ctx.log('two-layers: counterexample of the as-is model on the real application: %s' % verdict)
-            if verdict != 'reproduced':
-                precheck = True
-        elif not r.ok:
-            raise tlc.MachineryError('two-layers model: %r\n%s' % (r, r.out[-1500:]))
-        else:
-            raise tlc.MachineryError('two-layers model: expected the as-is model to violate RejectedHasNoEffects')
-        if precheck:
-            r2 = check_model(ctx, w.name + '-precheck', w, u, 1, precheck=True, workers=8)
-            if not r2.ok:
-                raise tlc.MachineryError('two-layers model with PrecheckAllLayers: %r\n%s' % (r2, r2.out[-1500:]))
-            vacuity_guard(w.name, r2, ['DoMapRequest', 'RenderLayer', 'DoFetch', 'DoStore', 'Respond'])
-            ctx.add_tlc('TileRefuse/' + w.name + '/precheck', r2)
-        cases = export_cases(ctx, w.name, w, u, precheck)
-        run_table(ctx, w, app, cases)
-        traces = [record_trace(w, app, [random_request(ctx.rng, w) for _ in range(30)]) for _ in range(4)]
-        judge_traces(ctx, w, traces, precheck)
-    finally:
-        app.close()
-
-
-def lattice_world(ctx, w, thorough):
-    margin = 3 if thorough else 2
-    u = window_universe(w, margin=margin)
-    r = check_model(ctx, w.name, w, u, 1)
-    app = App(w, ctx.sub('app-' + w.name))
-    try:
-        if r.violated:
-            verdict = confront_model_violation(ctx, w, app, r, False)
-            if verdict != 'reproduced':
-                raise tlc.MachineryError('%s: the model violates %s but the real application does not follow the '
-                                         'counterexample (%s): the model is not faithful' % (w.name, r.violated, verdict))
-        elif not r.ok:
-            raise tlc.MachineryError('TileRefuse %s: %r\n%s' % (w.name, r, r.out[-1500:]))
-        else:
-            need = ['DoTileRequest', 'DoFetch', 'DoStore', 'Respond', 'Forget']
-            if u.get('layerseqs'):
-                need += ['DoMapRequest', 'RenderLayer']
-            vacuity_guard(w.name, r, need)
-            ctx.add_tlc('TileRefuse/' + w.name, r)
-        # (R) every single request of the window, from the empty cache
-        cases = export_cases(ctx, w.name, w, u)
-        classes = run_table(ctx, w, app, cases)
-        for must in ['tile/-', 'error/TileOutOfRange', 'error/InvalidFormat']:
-            if must not in classes:
-                raise tlc.MachineryError('%s: no case of class %s in the table' % (w.name, must))
-        ctx.sample({'kind': 'case of the TLC table executed on the real application (%s)' % w.name,
-                    'request': describe(cases[len(cases) // 3]['req']), 'expected': cases[len(cases) // 3]['exp']})
-        # exhaustive pairs of requests on a smaller window + (R) simulated longer behaviours
-        small = window_universe(w, margin=1, special=False, vary=False,
-                                flavours=FLAVOURS if thorough else ['tms', 'tiles_nw', 'wmts_kvp', 'kml'])
-        if small.get('mapsizes'):
-            tw = w.tile_size[0]
-            small['mapoffs'] = [-tw // 2, 0, tw]
-            small['mapsizes'] = [tw, 2 * tw + tw // 2] if not thorough else [tw, 2 * tw, 2 * tw + tw // 2]
-            small['maplevels'] = [0, w.levels - 1]
-        r2 = check_model(ctx, w.name + '-pairs', w, small, 2, invariants=INVARIANTS)
-        if r2.violated:
-            verdict = confront_model_violation(ctx, w, app, r2, False)
-            if verdict != 'reproduced':
-                raise tlc.MachineryError('%s: pairs model violates %s, not reproduced (%s)' % (w.name, r2.violated, verdict))
-        elif not r2.ok:
-            raise tlc.MachineryError('TileRefuse %s pairs: %r\n%s' % (w.name, r2, r2.out[-1500:]))
-        else:
-            ctx.add_tlc('TileRefuse/' + w.name + '/pairs', r2)
-        simu = window_universe(w, margin=1, special=False, vary=True)
-        simulate_and_replay(ctx, w, app, simu, num=40 if thorough else 12, depth=60, max_req=12)
-        # (T) random request sequences
-        ntr, nreq = (12, 60) if thorough else (4, 40)
-        traces = [record_trace(w, app, [random_request(ctx.rng, w) for _ in range(nreq)]) for _ in range(ntr)]
-        nrej = judge_traces(ctx, w, traces)
-        for t in traces:
-            ctx.count(('trace', w.name, len(t), json.dumps(t[0], sort_keys=True)))
-        ctx.log('traces %s: %d recorded request sequences validated (%d rejected)' % (w.name, len(traces), nrej))
-        return traces
-    finally:
-        app.close()
-
-
-def global_world(ctx, w, thorough):
-    app = App(w, ctx.sub('app-' + w.name))
-    try:
-        ntr, nreq = (10, 150) if thorough else (3, 80)
-        traces = [record_trace(w, app, [random_request(ctx.rng, w) for _ in range(nreq)]) for _ in range(ntr)]
-        nrej = judge_traces(ctx, w, traces)
-        served = sum(1 for t in traces for e in t if e['ev'] == 'respond' and e['cls'] == 'tile')
-        refused = sum(1 for t in traces for e in t if e['ev'] == 'respond' and e['cls'] == 'error')
-        if not served or not refused:
-            raise tlc.MachineryError('%s: random requests do not cover both served and refused (%d/%d)' % (w.name, served, refused))
-        for t in traces:
-            ctx.count(('trace', w.name, len(t), json.dumps(t[0], sort_keys=True)))
-        ctx.log('traces %s: %d sequences, %d tiles served, %d requests refused, %d rejected by the trace spec' % (
-            w.name, len(traces), served, refused, nrej))
-        return traces
-    finally:
-        app.close()
+def small_universe(w, thorough):
+    small = window_universe(w, margin=1, special=False, vary=False,
+                            flavours=FLAVOURS if thorough else ['tms', 'tiles_nw', 'wmts_kvp', 'kml'])
+    if small.get('mapsizes'):
+        tw = w.tile_size[0]
+        small['mapoffs'] = [-tw // 2, 0, tw]
+        small['mapsizes'] = [tw, 2 * tw, 2 * tw + tw // 2] if thorough else [tw, 2 * tw + tw // 2]
+        small['maplevels'] = [0, w.levels - 1]
+    return small
 
 
 def run(ctx):
+    from concurrent.futures import ThreadPoolExecutor
     thorough = ctx.tier == 'thorough'
     tlc.sany(SPEC)
-    first = None
-    for w in worlds(ctx.tier):
-        tr = lattice_world(ctx, w, thorough)
-        first = first or (w, tr)
-    two_layer_scenario(ctx)
-    for w in global_worlds(ctx.tier):
-        tr = global_world(ctx, w, thorough)
-        if w.name == 'GLOBAL_MERCATOR':
-            ctx.sample({'kind': 'request sequence recorded on GLOBAL_MERCATOR, validated by Trace_TileRefuse',
-                        'events': [{k: v for k, v in e.items() if k != 'cached'} for e in tr[0][:6]]})
+    lattice = worlds(ctx.tier)
+    cw = coarse_world()
+    globs = global_worlds(ctx.tier)
+    pool = ThreadPoolExecutor(max_workers=8 if thorough else 6)
+    try:
+        # ---- phase 1: all TLC model runs start in the background -----------------------------------------
+        jobs = {}
+        for w in lattice:
+            u = window_universe(w, margin=3 if thorough else 2)
+            jobs[w.name, 'mc'] = pool.submit(check_model, ctx, w.name, w, u, 1, table=True)
+            if thorough or w.name in ('ll-dims', 'ul-meta'):
+                jobs[w.name, 'pairs'] = pool.submit(check_model, ctx, w.name + '-pairs', w, small_universe(w, thorough), 2,
+                                                    invariants=INVARIANTS)
+            jobs[w.name, 'sim'] = pool.submit(simulate, ctx, w, window_universe(w, margin=1, special=False, vary=True),
+                                              40 if thorough else 10, 60, 12)
+        jobs[cw.name, 'as-is'] = pool.submit(check_model, ctx, cw.name + '-as-is', cw, coarse_universe(cw), 1,
+                                             precheck=False, table=True)
+        jobs[cw.name, 'precheck'] = pool.submit(check_model, ctx, cw.name + '-precheck', cw, coarse_universe(cw), 1,
+                                                precheck=True, table=True)
+        tjobs = {}
+
+        # ---- phase 2: the real application, world by world ------------------------------------------------
+        for w in lattice:
+            app = App(w, ctx.sub('app-' + w.name))
+            try:
+                r = jobs[w.name, 'mc'].result()
+                ctx.log('TLC %s: %r' % (w.name, r))
+                if r.violated:
+                    verdict = confront_model_violation(ctx, w, app, r, False)
+                    if verdict != 'reproduced':
+                        raise tlc.MachineryError('%s: the model violates %s but the real application does not follow the '
+                                                 'counterexample (%s): the model is not faithful' % (w.name, r.violated, verdict))
+                elif not r.ok:
+                    raise tlc.MachineryError('TileRefuse %s: %r\n%s' % (w.name, r, r.out[-1500:]))
+                else:
+                    need = ['DoTileRequest', 'DoFetch', 'DoStore', 'Respond', 'Forget']
+                    if w.tile_limit:
+                        need += ['DoMapRequest', 'RenderLayer']
+                    vacuity_guard(w.name, r, need)
+                    ctx.add_tlc('TileRefuse/' + w.name, r)
+                if r.cases is None:
+                    raise tlc.MachineryError('%s: TLC wrote no case table\n%s' % (w.name, r.out[-1500:]))
+                # (R) every single request of the window, from the empty cache
+                classes = run_table(ctx, w, app, r.cases)
+                for must in ['tile/-', 'error/TileOutOfRange', 'error/InvalidFormat', 'error/InvalidRequest']:
+                    if must not in classes:
+                        raise tlc.MachineryError('%s: no case of class %s in the table' % (w.name, must))
+                if w.name == 'll-dims':
+                    c = [c for c in r.cases if c['exp']['cls'] == 'tile'][7]
+                    ctx.sample({'kind': 'case of the TLC table executed on the real application (%s)' % w.name,
+                                'request': describe(c['req']), 'url': app.url(c['req']), 'expected': c['exp']})
+                # exhaustive pairs of requests on a smaller window
+                if (w.name, 'pairs') in jobs:
+                    r2 = jobs[w.name, 'pairs'].result()
+                    ctx.log('TLC %s pairs: %r' % (w.name, r2))
+                    if r2.violated:
+                        verdict = confront_model_violation(ctx, w, app, r2, False)
+                        if verdict != 'reproduced':
+                            raise tlc.MachineryError('%s: pairs model violates %s, not reproduced (%s)' % (w.name, r2.violated, verdict))
+                    elif not r2.ok:
+                        raise tlc.MachineryError('TileRefuse %s pairs: %r\n%s' % (w.name, r2, r2.out[-1500:]))
+                    else:
+                        ctx.add_tlc('TileRefuse/' + w.name + '/pairs', r2)
+                # (R) longer TLC behaviours
+                behs = jobs[w.name, 'sim'].result()
+                for n, beh in enumerate(behs):
+                    steps, ok = replay_behaviour(ctx, w, app, beh, 'sim')
+                    ctx.cov['replayed_behaviours'] += 1
+                    ctx.cov['replayed_steps'] += steps
+                    ctx.count(('sim', w.name, n))
+                if w.name == 'ul-meta':
+                    ctx.sample({'kind': 'TLC behaviour replayed on the real application (%s)' % w.name,
+                                'requests': [describe(req_from_state(st['pend']['req'])) for a, st in behs[0][1:]
+                                             if a in ('DoTileRequest', 'DoMapRequest')][:8]})
+                ctx.log('sim %s: %d TLC behaviours replayed' % (w.name, len(behs)))
+                # (T) random request sequences, validated in the background
+                ntr, nreq = (12, 60) if thorough else (4, 40)
+                traces = [record_trace(w, app, [random_request(ctx.rng, w) for _ in range(nreq)]) for _ in range(ntr)]
+                tjobs[w.name] = (w, traces, False, pool.submit(validate_traces, ctx, w, traces, False))
+            finally:
+                app.close()
+
+        # two cached layers with different grids behind one WMS request
+        app = App(cw, ctx.sub('app-' + cw.name))
+        try:
+            r = jobs[cw.name, 'as-is'].result()
+            ctx.log('TLC %s (the code as it is): %r' % (cw.name, r))
+            precheck = False
+            if r.violated == 'RejectedHasNoEffects':
+                verdict = confront_model_violation(ctx, cw, app, r, False)
+                ctx.log('%s: counterexample of the as-is model on the real application: %s' % (cw.name, verdict))
+                if verdict != 'reproduced':
+                    precheck = True
+            else:
+                raise tlc.MachineryError('two-layers: the as-is model was expected to violate RejectedHasNoEffects: %r\n%s' % (
+                    r, r.out[-1500:]))
+            r2 = jobs[cw.name, 'precheck'].result()
+            if not r2.ok:
+                raise tlc.MachineryError('two-layers model with PrecheckAllLayers: %r\n%s' % (r2, r2.out[-1500:]))
+            vacuity_guard(cw.name, r2, ['DoMapRequest', 'RenderLayer', 'DoFetch', 'DoStore', 'Respond'])
+            if precheck:
+                ctx.add_tlc('TileRefuse/' + cw.name + '/precheck', r2)
+            cases = (r2 if precheck else r).cases
+            if cases is None:
+                raise tlc.MachineryError('%s: TLC wrote no case table' % cw.name)
+            run_table(ctx, cw, app, cases)
+            traces = [record_trace(cw, app, [random_request(ctx.rng, cw) for _ in range(30)]) for _ in range(6 if thorough else 3)]
+            tjobs[cw.name] = (cw, traces, precheck, pool.submit(validate_traces, ctx, cw, traces, precheck))
+        finally:
+            app.close()
+
+        # the real global grids
+        for w in globs:
+            app = App(w, ctx.sub('app-' + w.name))
+            try:
+                ntr, nreq = (10, 150) if thorough else (3, 80)
+                traces = [record_trace(w, app, [random_request(ctx.rng, w) for _ in range(nreq)]) for _ in range(ntr)]
+                served = sum(1 for t in traces for e in t if e['ev'] == 'respond' and e['cls'] == 'tile')
+                refused = sum(1 for t in traces for e in t if e['ev'] == 'respond' and e['cls'] == 'error')
+                if not served or not refused:
+                    raise tlc.MachineryError('%s: random requests do not cover both served and refused (%d/%d)' % (
+                        w.name, served, refused))
+                ctx.log('%s: %d request sequences recorded, %d tiles served, %d requests refused' % (
+                    w.name, len(traces), served, refused))
+                tjobs[w.name] = (w, traces, False, pool.submit(validate_traces, ctx, w, traces, False))
+                if w.name == 'GLOBAL_MERCATOR':
+                    ctx.sample({'kind': 'request sequence recorded on GLOBAL_MERCATOR, validated by Trace_TileRefuse',
+                                'events': [{k: v for k, v in e.items() if k != 'cached'} for e in traces[0][:6]]})
+            finally:
+                app.close()
+
+        # ---- phase 3: verdicts of the trace validations -----------------------------------------------------
+        for name, (w, traces, precheck, fut) in tjobs.items():
+            nrej = judge_traces(ctx, w, traces, precheck, result=fut.result())
+            ctx.log('traces %s: %d recorded request sequences validated by TLC (%d rejected)' % (name, len(traces), nrej))
+    finally:
+        pool.shutdown(wait=True)
     ctx.assumptions += [
         'the lexical classes of an address component are: integer, 30-digit number, its negative, a non-numeric word; '
         'other spellings int() accepts but the path patterns do not (+1, 1_0, surrounding blanks) are not enumerated',
@@ -957,15 +977,16 @@ def replay(ctx, data):
         for e in events:
             print('  ', json.dumps({k: v for k, v in e.items() if k != 'cached'}))
         precheck = bool(case.get('precheck', False))
-        r, matched = validate_traces(ctx, w, [events], precheck)
+        r, matched = validate_traces(ctx, w, [events], precheck, name='replay-acc', invariants=())
         if matched is None:
             raise tlc.MachineryError('replay: no verdict from TLC\n' + r.out[-1500:])
         if matched[0] < len(events):
             print('replay: the real execution is NOT a behaviour of the model at event %d: %s' % (
                 matched[0], {k: v for k, v in events[matched[0]].items() if k != 'cached'}))
             return 1
+        r, matched = validate_traces(ctx, w, [events], precheck, name='replay-inv')
         if r.violated and r.violated != 'postcondition':
-            print('replay: the real execution is a behaviour of the model and violates %s' % r.violated)
+            print('replay: the real execution is a behaviour of the model of the code and violates %s' % r.violated)
             return 1
         print('replay: accepted, all invariants hold')
         return 0
